@@ -59,11 +59,60 @@ func corner() []pipe.Scenario {
 		Pkgs:   []pipe.Pkg{{Dir: "", Name: "root", Types: []pipe.Type{{Name: "T", Enabled: []string{"g1"}}}}},
 		HasSum: true, SumJunk: "example.com/m h1:old=\n"}, Entry: []string{"."}, Base: "gengo",
 		Gens: []pipe.Gen{{Name: "g1", Steps: map[string]pipe.Step{"example.com/m T": {Body: "var V = 1\n"}}}}})
+	out = append(out, outcomeOrders()...)
 	out = append(out, importChains()...)
 	out = append(out, lineDirectiveCases()...)
 	out = append(out, otherModules()...)
 	out = append(out, rootPackage()...)
 	out = append(out, workspaces()...)
+	return out
+}
+
+// outcomeOrders: one generator, one package with a previous output, three enabled types A < B < C (visited in this
+// order) and every assignment of the four outcomes {ErrIgnore, ErrSkip, nil without rendering, nil with a rendered
+// declaration} to them - 64 scenarios - plus the 16 assignments over two alias types for an alias generator.  Whether the
+// previous file is kept, removed or rewritten must depend on the SET of outcomes only (kept iff nothing was rendered
+// and some type returned ErrIgnore), not on their order (seeded changes C07-l / C07-n: the ErrIgnore mark cleared by a
+// later ErrSkip or nil).
+func outcomeOrders() []pipe.Scenario {
+	prev := func(g string) pipe.File {
+		return pipe.File{Path: "a/zz_generated." + g + ".go", Content: "package a\n\n// previous output of " + g + "\n"}
+	}
+	outcome := func(k int, name string) pipe.Step {
+		switch k {
+		case 0:
+			return pipe.Step{Res: "ignore"}
+		case 1:
+			return pipe.Step{Res: "skip"}
+		case 2:
+			return pipe.Step{}
+		}
+		return pipe.Step{Body: "var V" + name + " = 1\n"}
+	}
+	var out []pipe.Scenario
+	names := []string{"A", "B", "C"}
+	for code := 0; code < 64; code++ {
+		var types []pipe.Type
+		steps := map[string]pipe.Step{}
+		for i, n := range names {
+			types = append(types, pipe.Type{Name: n, Enabled: []string{"g1"}})
+			steps["example.com/m/a "+n] = outcome((code>>(2*i))&3, n)
+		}
+		out = append(out, pipe.Scenario{Module: pipe.Module{ModPath: "example.com/m", GoVer: "1.22",
+			Pkgs: []pipe.Pkg{{Dir: "a", Name: "a", Types: types}}, Files: []pipe.File{prev("g1")}},
+			Entry: []string{"./a"}, Base: "zz_generated", Gens: []pipe.Gen{{Name: "g1", Steps: steps}}})
+	}
+	for code := 0; code < 16; code++ {
+		var types []pipe.Type
+		steps := map[string]pipe.Step{}
+		for i, n := range []string{"U", "W"} {
+			types = append(types, pipe.Type{Name: n, Alias: "int", Enabled: []string{"al"}})
+			steps["example.com/m/a "+n] = outcome((code>>(2*i))&3, n)
+		}
+		out = append(out, pipe.Scenario{Module: pipe.Module{ModPath: "example.com/m", GoVer: "1.22",
+			Pkgs: []pipe.Pkg{{Dir: "a", Name: "a", Types: types}}, Files: []pipe.File{prev("al")}},
+			Entry: []string{"./a"}, Base: "zz_generated", Gens: []pipe.Gen{{Name: "al", Alias: true, Steps: steps}}})
+	}
 	return out
 }
 
